@@ -3,6 +3,7 @@
 -/
 import SimVerif.Drv.Kernel
 import SimVerif.Drv.HttpSrv
+import SimVerif.Drv.ProxySrv
 
 namespace SimVerif.Drv
 
@@ -11,6 +12,6 @@ def Hooks.orElse (a b : Hooks) : Hooks :=
   { op := fun p ctx op s => (a.op p ctx op s).orElse (fun _ => b.op p ctx op s)
     internal := fun p h ec x d src s => (a.internal p h ec x d src s).orElse (fun _ => b.internal p h ec x d src s) }
 
-def allHooks : Hooks := httpHooks.orElse {}
+def allHooks : Hooks := httpHooks.orElse (proxyHooks.orElse {})
 
 end SimVerif.Drv
